@@ -509,6 +509,23 @@ def fieldSchemaJson (k : FKind) (c : FCard) (int64Number : Bool) (r : FieldRules
   | .string, true, .obj kvs => .obj (kvs.map json11Kw)
   | _, _, s => s
 
+/-- `makeNullableSchema` (`(sebuf.http.nullable) = true` on a proto3 `optional` scalar): the schema
+is rebuilt with `"null"` appended to its `type`; every other keyword — the rule keywords
+included — is kept. -/
+def makeNullable : Json → Json
+  | .obj kvs =>
+    (match kw K.type kvs with
+     | some (.str t) => .obj (kvs.map fun p => if p.1 = K.type then (p.1, Json.arr [.str t, .str T.null]) else p)
+     | _ => .obj kvs)
+  | j => j
+
+/-- the field's schema object, nullable annotation included. -/
+def fieldSchemaN (nullable : Bool) (k : FKind) (c : FCard) (int64Number : Bool) (r : FieldRules) : Json :=
+  if nullable && c.isScalar then makeNullable (fieldSchema k c int64Number r) else fieldSchema k c int64Number r
+
+def fieldSchemaJsonN (nullable : Bool) (k : FKind) (c : FCard) (int64Number : Bool) (r : FieldRules) : Json :=
+  if nullable && c.isScalar then makeNullable (fieldSchemaJson k c int64Number r) else fieldSchemaJson k c int64Number r
+
 /-- rendering `const: ""` dereferences a nil YAML document: the plugin dies without an answer. -/
 def crashes (k : FKind) (c : FCard) (r : FieldRules) : Bool :=
   c.isScalar && k == .string && r.strConst == some []
